@@ -15,6 +15,8 @@
   The *source* that is iterated is a parameter: a tensor source is `(shape, cell)` where `cell`
   says which storage cell `get_reference_unchecked(indexes)` resolves to (`none`: outside the
   source — undefined behaviour in the Rust), a matrix source is `(rows, columns, cell)`.
+  Tensor view adaptors and their compositions come from the C02 model (`TSource.ofView`,
+  Model/IterView.lean).
 
   Core Lean only: everything here is executed by the `emlmodel` driver.
 -/
@@ -437,41 +439,14 @@ def MSource.reverse {κ : Type} (src : MSource κ) (revRows revColumns : Bool) :
         src.cell (if revRows then src.rows - 1 - p.1 else p.1,
                   if revColumns then src.columns - 1 - p.2 else p.2) }
 
-/-- `TensorRange` given the per-dimension `(start, length)` (already clipped, all dimensions):
-    `map_indexes_by_range(indexes, &self.range).unwrap()` -/
-def TSource.range {κ : Type} (src : TSource κ) (ranges : List (Nat × Nat)) : TSource κ :=
-  { shape := ranges.map (·.2)
-    cell := fun idx =>
-      if idx.length ≠ ranges.length then none else
-      match (List.zip ranges idx).mapM (fun (r, i) => rangeMap r.1 r.2 i) with
-      | some mapped => src.cell mapped
-      | none => none }
-
-/-- `TensorMask` given the per-dimension `(start, length)` (already clipped, all dimensions):
-    `IndexRange::mask`: `if index < start { index } else { index + length }` -/
-def TSource.mask {κ : Type} (src : TSource κ) (masks : List (Nat × Nat)) : TSource κ :=
-  { shape := (List.zip src.shape masks).map fun (l, m) => l - m.2
-    cell := fun idx =>
-      if idx.length ≠ masks.length then none else
-      src.cell ((List.zip masks idx).map fun (m, i) => if i < m.1 then i else i + m.2) }
-
-/-- `TensorReverse`: `reverse_indexes(&indexes, &self.view_shape(), &self.reversed)` -/
-def TSource.reverse {κ : Type} (src : TSource κ) (reversed : List Bool) : TSource κ :=
-  { shape := src.shape
-    cell := fun idx =>
-      if idx.length ≠ src.shape.length then none else
-      match (List.zip (List.zip src.shape reversed) idx).mapM
-          (fun ((l, r), i) => if r then (if i + 1 ≤ l then some (l - 1 - i) else none) else some i) with
-      | some mapped => src.cell mapped
-      | none => none }
-
 /-- a `Tensor` (C01 model): `view_shape` is its shape, the resolved cell is the row-major offset
     computed by `get_index_direct` (`none` outside the shape) -/
 def TSource.ofTensor {ν α : Type} (t : Tensor ν α) : TSource Nat :=
   { shape := t.shape.map (·.2), cell := fun idx => t.offset idx }
 
 /-- `TensorAccess` / `TensorTranspose` over any source: the shape is the source's shape in the
-    requested order, indexes are mapped back with `map_dimensions_to_source` -/
+    requested order, indexes are mapped back with `map_dimensions_to_source`
+    (used by Model/Survivor.lean; C09's own driver takes adaptors from the C02 view model) -/
 def TSource.access {κ : Type} (src : TSource κ) (m : DimensionMappings) : TSource κ :=
   { shape := m.requestedToSource.map fun i => src.shape.getD i 0
     cell := fun idx => src.cell (m.mapDimensionsToSource idx) }
